@@ -93,6 +93,7 @@ def gen_case(seed):
         'delpath': r.chance(10), 'steps': r.chance(50), 'stepactor': r.chance(30),
         'viewer': r.chance(70), 'quiet': r.chance(25), 'explicit': r.chance(50),
         'two_actors': r.chance(30), 'moveupdate': r.chance(40),
+        'tokens': r.chance(35), 'stepviewer': r.chance(40),
     }
     names = ['n'] + r.sample([v for v in VAR_MENU if v not in ('n', 't')], r.rint(1, 5))
     if swarm['steps']:
@@ -162,6 +163,11 @@ def gen_case(seed):
         if swarm['illegal']:
             menu += [['add_existing', rr.below(4)]]
         menu += [['write', rr.below(4), 'n', rr.rint(1, 9)]]
+        if swarm['combo'] and swarm['add']:
+            menu += [['add_write', _state_for(rr, cellvars), rr.below(4), rr.rint(1, 9)]]
+        if swarm['tokens']:
+            menu += [['add_leaf', rr.pick([0, 0, False, 5, 12])]] * 2 + \
+                    [['del_leaf', rr.below(4)], ['write_leaf', rr.below(4), rr.rint(1, 9)]]
         return rr.pick(menu)
 
     def safe_op(rr):
@@ -169,7 +175,7 @@ def gen_case(seed):
         # issue conflicting operations on one cell in the same batch
         for _ in range(20):
             o = op(rr)
-            if o[0] in ('noop', 'add', 'gen', 'write'):
+            if o[0] in ('noop', 'add', 'gen', 'write', 'add_leaf'):
                 return o
         return ['noop']
 
@@ -185,16 +191,26 @@ def gen_case(seed):
     viewers = []
     if swarm['viewer']:
         for i in range(r.rint(1, 2)):
+            vkind = 'proc'
+            vflow = None
+            if swarm['stepviewer'] and actors[0]['kind'] == 'step' and r.chance(70):
+                vkind = 'step'
+                vflow = [['actor0']] if actors[0].get('flow') is not None else None
             viewers.append({'name': 'viewer%d' % i, 'store': r.pick(['agents', 'agents', 'pool']),
+                            'kind': vkind, 'flow': vflow,
                             'sees': ['n'] + [v for v in names if v != 'n' and r.chance(40)],
                             'ts': {'mode': 'const', 'vals': [r.rint(1, tsmax)], 'unit': UNIT}})
     ops = []
     for i in range(r.rint(1, 4)):
         u = r.rint(1, 24)
         ops.append(r.pick([['run_for', u, False], ['run_for', u, True], ['update', u], ['update', u]]))
+    tokens = None
+    if swarm['tokens']:
+        tokens = {'t%d' % i: r.pick([0, 3, 7, False]) for i in range(r.rint(0, 2))}
     return {
         'profile': PROFILE, 'seed': seed,
         'opts': {'precision': None, 'unit': UNIT, 't0': 0},
+        'tokens': tokens,
         'cellvars': cellvars, 'templates': templates, 'init_cells': init_cells,
         'actors': actors, 'viewers': viewers, 'ops': ops,
         'swarm': sorted(k for k, v in swarm.items() if v),
@@ -227,6 +243,7 @@ def build(case, parallel=()):
         spec['cellvars'] = cellvars
         spec['templates'] = case['templates']
         spec['thin'] = (a is case['actors'][0])
+        spec['tokens'] = case.get('tokens') is not None
         spec['parallel_cells'] = ('cells' in parallel)
         params = {'spec': spec, 'name': a['name']}
         if a['kind'] == 'step':
@@ -238,11 +255,21 @@ def build(case, parallel=()):
             obj = AProc(params)
             processes[a['name']] = obj
         topology[a['name']] = {'agents': ('agents',), 'pool': ('pool',), 'probe': ('verif_probe',)}
+        if case.get('tokens') is not None:
+            topology[a['name']]['tokens'] = ('tokens',)
     for v in case.get('viewers', []):
         spec = dict(v)
         spec['cellvars'] = cellvars
-        processes[v['name']] = VProc({'spec': spec, 'name': v['name']})
+        if v.get('kind') == 'step':
+            from dst.parties import VStep
+            steps[v['name']] = VStep({'spec': spec, 'name': v['name']})
+            if v.get('flow') is not None:
+                flow[v['name']] = [tuple(d) for d in v['flow']]
+        else:
+            processes[v['name']] = VProc({'spec': spec, 'name': v['name']})
         topology[v['name']] = {'look': (v['store'],), 'probe': ('verif_probe',)}
+    if case.get('tokens') is not None:
+        init['tokens'] = copy.deepcopy(case['tokens'])
     return processes, steps, flow, topology, init
 
 
@@ -414,6 +441,7 @@ class HModel:
         self.groups = []      # unresolved division groups
         self.known_hits = {}
         self.moved, self.created, self.deleted, self.divided, self.tuple_deletes = [], [], [], [], []
+        self.tokens = copy.deepcopy(case.get('tokens')) if case.get('tokens') is not None else None
         for s in STORES:
             for key, tname, state in case['init_cells'].get(s, []):
                 self.stores[s][key] = self.new_cell(tname, state)
@@ -444,7 +472,7 @@ class HModel:
         for a in self.case['actors']:
             out[(a['name'],)] = {'kind': a['kind'], 'flow': a.get('flow')}
         for v in self.case.get('viewers', []):
-            out[(v['name'],)] = {'kind': 'proc'}
+            out[(v['name'],)] = {'kind': v.get('kind', 'proc'), 'flow': v.get('flow')}
         return out
 
     # ---- updates ---------------------------------------------------------
@@ -461,6 +489,21 @@ class HModel:
         """Apply the structural/value update of an actor (port-relative).
         Returns 'illegal-add' if the update adds an existing key."""
         result = None
+        tk = update.get('tokens')
+        if isinstance(tk, dict) and self.tokens is not None:
+            for added in tk.get('_add', []) or []:
+                if added['key'] in self.tokens:
+                    return 'illegal-add'
+                # the given state, whatever it is (0 and False are states too)
+                self.tokens[added['key']] = added['state']
+                footprint.add(('tokens', added['key']))
+            for key, val in tk.items():
+                if not key.startswith('_') and key in self.tokens:
+                    self.tokens[key] = self.tokens[key] + val
+            for key in tk.get('_delete', []) or []:
+                if key in self.tokens:
+                    del self.tokens[key]
+                    footprint.add(('tokens', key))
         for store in STORES:
             u = update.get(store)
             if not isinstance(u, dict):
@@ -768,6 +811,16 @@ def check(case, run, stats=None):
             return err
         real = _cells_of(snap)
         model = m.tree()
+        if m.tokens is not None:
+            rt = snap.get('tokens')
+            rt = rt if isinstance(rt, dict) else {}
+            if set(rt) != set(m.tokens):
+                return V('C09', 'C09.cells', 'leaf-children',
+                         'store tokens holds %r, expected %r' % (sorted(rt), sorted(m.tokens)), seq)
+            for key_, val_ in m.tokens.items():
+                if not (values_equal(rt[key_], val_) and type(rt[key_]) == type(val_)):
+                    return V('C09', 'C09.value', 'leaf-child',
+                             'tokens/%s: real %r, model %r' % (key_, rt[key_], val_), seq)
         for s in STORES:
             rk, mk = set(real[s]), set(model[s])
             if rk != mk:
@@ -839,7 +892,10 @@ def check(case, run, stats=None):
     def expected_view(name, path):
         if name in actor_names:
             t = m.tree()
-            return {st: {k: {'vars': dict(c['vars'])} for k, c in t[st].items()} for st in STORES}
+            out_ = {st: {k: {'vars': dict(c['vars'])} for k, c in t[st].items()} for st in STORES}
+            if m.tokens is not None:
+                out_['tokens'] = dict(m.tokens)
+            return out_
         if name in viewers:
             vw = viewers[name]
             t = m.tree()
